@@ -302,6 +302,8 @@ def run_pure(cfg):
     seqs = [[(8, True), (9, True)], [(9, True), (8, True)], [(8, False), (8, True)], [(64, True), (65, True), (64, False)]]
     if cls in ('Fbank', 'GaborFilterBank'):
         seqs = seqs[:3]       # long sequences are costly (mel log/exp axioms; per-bin periodisation loops of the Gabor response)
+    # 'trunc' = get_truncated_response: adjacent widths share the number of half-spectrum bins but not the bin frequencies
+    seqs += [[(8, 'trunc'), (9, 'trunc')], [(9, 'trunc'), (8, 'trunc')], [(8, True), (9, 'trunc'), (8, False)]]
     for seq in seqs:
         ns = fc.load_filters(dict(np=WNP))
 
@@ -320,15 +322,21 @@ def run_pure(cfg):
             outs = []
             for (w, half) in seq:
                 try:
-                    a1 = shared.get_frequency_response(0, w, half)
-                    a2 = mk().get_frequency_response(0, w, half)
+                    if half == 'trunc':
+                        s1, a1 = shared.get_truncated_response(0, w)
+                        s2, a2 = mk().get_truncated_response(0, w)
+                    else:
+                        s1 = s2 = 0
+                        a1 = shared.get_frequency_response(0, w, half)
+                        a2 = mk().get_frequency_response(0, w, half)
                 except Exception as e:
                     symex.guard(e)
                     return ('exception', '%s: %s' % (type(e).__name__, e))
-                outs.append((w, half, a1, a2))
+                outs.append((w, half, a1, a2, s1, s2))
             k = z3.Int('k')
             bad = []
-            for (w, half, a1, a2) in outs:
+            for (w, half, a1, a2, s1, s2) in outs:
+                bad.append(_z(s1) != _z(s2))
                 n1, n2 = zi(a1.shape[0]), zi(a2.shape[0])
                 bad.append(n1 != n2)
                 bad.append(z3.And(k >= 0, k < n1, k < n2, a1.get(k) != a2.get(k)))
@@ -443,8 +451,13 @@ def replay(w):
             b = C(num_filts=5, sampling_rate=8000) if w['cls'] == 'Fbank' else C('mel', num_filts=5, sampling_rate=8000)
             for i in range(b.num_filts):
                 for (width, half) in w['seq']:
-                    a1 = b.get_frequency_response(i, width, half)
                     fresh = C(num_filts=5, sampling_rate=8000) if w['cls'] == 'Fbank' else C('mel', num_filts=5, sampling_rate=8000)
+                    if half == 'trunc':
+                        (s1, a1), (s2, a2) = b.get_truncated_response(i, width), fresh.get_truncated_response(i, width)
+                        if s1 != s2 or a1.shape != a2.shape or not np.array_equal(a1, a2, equal_nan=True):
+                            return {'reproduced': True, 'detail': '%s filter %d: get_truncated_response(width=%d) after %s differs from a fresh instance' % (w['cls'], i, width, w['seq'])}
+                        continue
+                    a1 = b.get_frequency_response(i, width, half)
                     a2 = fresh.get_frequency_response(i, width, half)
                     if a1.shape != a2.shape or not np.array_equal(a1, a2):
                         return {'reproduced': True, 'detail': '%s filter %d: get_frequency_response(width=%d, half=%s) after %s differs from a fresh instance' % (w['cls'], i, width, half, w['seq'])}
